@@ -279,6 +279,10 @@ func Generate(r *rand.Rand, profile string) *Scenario {
 			minA := 1 + r.Intn(sizeA)
 			minB := 1 + r.Intn(t.size-sizeA)
 			sc.Jobs[j].Subs = []Sub{{Name: "sa", Min: minA}, {Name: "sb", Min: minB}}
+			if chance(0.5) {
+				// hierarchical: sb nested under an intermediate sub-group set (index 3, holds no pods)
+				sc.Jobs[j].Subs = []Sub{{Name: "sa", Min: minA}, {Name: "sb", Min: minB, Parent: "grp"}, {Name: "grp", Min: 0}}
+			}
 			sc.Jobs[j].Min = minA + minB
 			t.min = minA + minB
 			if runFrac > 0.45 {
